@@ -57,6 +57,44 @@ def oracle(k, w):
     return None
 
 
+def gate_stress(ck, n):
+    """single multi-input gates with small polarity-free integer delays and dense multi-transition stimuli: many simultaneous
+    arrivals (zero-width hazards), the situations in which the pulse filter decides"""
+    import random
+    from kyupy.circuit import Circuit, Node, Line
+    rng = random.Random(ck.seed * 7919 + 404)
+    kinds = [('AND3', 3), ('OR3', 3), ('XOR3', 3), ('NAND4', 4), ('NOR4', 4), ('AO21', 3), ('OAI22', 4), ('MUX21', 3), ('AO211', 4), ('XNOR4', 4)]
+    fails = []
+    for i in range(n):
+        kind, ar = rng.choice(kinds)
+        c = Circuit('g')
+        g = Node(c, 'g', kind)
+        for p in range(ar):
+            pi = Node(c, f'i{p}', 'input'); c.io_nodes.append(pi)
+            Line(c, pi, (g, p))
+        po = Node(c, 'z', 'output'); c.io_nodes.append(po)
+        Line(c, g, po)
+        k = wk.Case()
+        k.c, k.reuse, k.strip, k.sims, k.tcap, k.a_ctrl = c, False, False, 4, None, None
+        k.caps = rng.choice([8, 16])
+        polfree = rng.random() < 0.7
+        d = np.zeros((len(c.lines), 2, 2))
+        for li in range(len(c.lines)):
+            d[li] = rng.randint(0, 3) if polfree else np.array([rng.randint(0, 3) for _ in range(4)]).reshape(2, 2)
+        k.delays, k.style = d, 'polfree' if polfree else 'full'
+        k.s0, k.s1, k.s2, k.extra = wc.gen_stimulus(rng, c, k.sims, tmax=6, extra_prob=0.9, max_trans=3)
+        try:
+            w = wk.run_case(k)
+            what = oracle(k, w)
+        except Exception as e:
+            what = f'raises {type(e).__name__}: {e}'
+        ck.count(k.sims, 'gate-stress')
+        ck.nontrivial(('gs', kind, i))
+        if what:
+            fails.append((wk.describe(k), 'single-gate stress (' + kind + '): ' + what))
+    return fails
+
+
 def run(ck):
     if THEOREMS:
         ck.prove('C04', THEOREMS)
@@ -64,6 +102,7 @@ def run(ck):
     ck.rule('random circuits x integer delay tables x capacities x multi-transition input waveforms on the integer (dyadic) grid; '
             'oracle: independent static timing analysis over the annotated netlist, reruns shifted by +16/-5 and scaled by 4 and 1/2, '
             'strict monotonicity for polarity-independent delay tables')
+    fails = gate_stress(ck, ck.scale(300, 6000)) + fails
     wk.report(ck, fails, mism, 'wavesim:sta', 'wave_sim.WaveSim')
 
 
